@@ -27,8 +27,27 @@ import (
 
 // ---- access to the unexported lock table -------------------------------------------------
 
+// verifC15TryLock acquires mu unless it stays held for too long (a stuck critical section).
+func verifC15TryLock(mu *sync.Mutex) bool {
+	deadline := time.Now().Add(5 * time.Second)
+	for i := 0; !mu.TryLock(); i++ {
+		if time.Now().After(deadline) {
+			return false
+		}
+		if i < 100 {
+			runtime.Gosched()
+		} else {
+			time.Sleep(10 * time.Microsecond)
+		}
+	}
+	return true
+}
+
+// verifC15Snapshot reads the lock table; nil if the locker's mutex is stuck.
 func verifC15Snapshot(lr *locker, ids []types.FileContractID) map[int][2]int {
-	lr.mu.Lock()
+	if !verifC15TryLock(&lr.mu) {
+		return nil
+	}
 	defer lr.mu.Unlock()
 	out := make(map[int][2]int, len(lr.locks))
 	unknown := 0
@@ -111,6 +130,7 @@ type c15Run struct {
 	twoHold atomic.Int32
 	timeout time.Duration
 	failed  bool
+	fatal   bool // the locker is wedged: no further case can run
 	parked  int
 }
 
@@ -208,6 +228,10 @@ func (r *c15Run) quiescent() (bool, string, string) {
 		}
 	}
 	snap := r.be.Snapshot()
+	if snap == nil {
+		r.fatal = true
+		return false, "locker-mutex-stuck", "lr.mu stays held: a critical section does not complete"
+	}
 	for k, e := range snap {
 		if k >= r.be.IDs {
 			return false, "leaked-entry", fmt.Sprintf("entry for an unknown id: n=%d", e[0])
@@ -247,7 +271,7 @@ func (r *c15Run) settle() string {
 			}
 		} else {
 			stable = 0
-			if time.Now().After(deadline) {
+			if r.fatal || time.Now().After(deadline) {
 				if sig == "leaked-entry" {
 					for _, th := range r.ths {
 						if th.status.Load() == c15MgrErr {
@@ -292,7 +316,13 @@ func (r *c15Run) observe() string {
 			st = append(st, "SMgrErr")
 		}
 	}
-	snap := r.be.Snapshot()
+	var snap map[int][2]int
+	if !r.fatal {
+		if snap = r.be.Snapshot(); snap == nil {
+			r.fatal = true
+			r.monitor("locker-mutex-stuck", "lr.mu stays held: a critical section does not complete")
+		}
+	}
 	keys := make([]int, 0, len(snap))
 	for k := range snap {
 		keys = append(keys, k)
@@ -315,7 +345,11 @@ func (r *c15Run) par(acts []func() string, held bool) {
 		var mu *sync.Mutex
 		if held {
 			mu = r.be.Mu()
-			mu.Lock()
+			if !verifC15TryLock(mu) {
+				r.fatal = true
+				r.monitor("locker-mutex-stuck", "lr.mu stays held: a critical section does not complete")
+				return
+			}
 		}
 		var wg sync.WaitGroup
 		stagger := make([]int, len(acts))
@@ -342,7 +376,15 @@ func (r *c15Run) par(acts []func() string, held bool) {
 			}
 			mu.Unlock()
 		}
-		wg.Wait()
+		done := make(chan struct{})
+		go func() { wg.Wait(); close(done) }()
+		select {
+		case <-done:
+		case <-time.After(3 * r.timeout):
+			r.fatal = true
+			r.monitor("action-did-not-return", "a Lock start, cancel or Unlock did not return")
+			return
+		}
 	}
 	obs := r.settle()
 	r.em.Step("Par "+coqList(terms), obs)
@@ -444,7 +486,7 @@ func (r *c15Run) drain() {
 }
 
 // abort stops every goroutine of a failed case as well as it can.
-func (r *c15Run) abort() {
+func (r *c15Run) abort() (stuck bool) {
 	for _, th := range r.ths {
 		if th.cancel != nil {
 			th.cancel()
@@ -467,11 +509,13 @@ func (r *c15Run) abort() {
 				calling = true
 			}
 		}
+		stuck = calling
 		if !held && !calling {
 			break
 		}
 	}
 	r.be.Reset()
+	return stuck
 }
 
 // finish: the no-leak part of the property, evaluated on the implementation.
@@ -486,7 +530,7 @@ func (r *c15Run) finish() {
 			return
 		}
 	}
-	if snap := r.be.Snapshot(); len(snap) != 0 {
+	if snap := r.be.Snapshot(); snap == nil || len(snap) != 0 {
 		r.monitor("leaked-entry", fmt.Sprintf("all callers returned and released, %d entries left: %v", len(snap), snap))
 		return
 	}
@@ -508,7 +552,7 @@ func (r *c15Run) finish() {
 			r.par([]func() string{func() string { return r.doUnlock(0) }}, false)
 		}
 	}
-	if snap := r.be.Snapshot(); len(snap) != 0 && !r.failed {
+	if snap := r.be.Snapshot(); !r.failed && len(snap) != 0 {
 		r.monitor("leaked-entry", fmt.Sprintf("after relock/unlock %d entries left: %v", len(snap), snap))
 	}
 }
@@ -678,7 +722,7 @@ func (r *c15Run) generated(steps int) {
 }
 
 // VerifC15Drive runs directed and generated schedules against the backend.
-func VerifC15Drive(t *testing.T, em VerifC15Emitter, be *VerifC15Backend, n int, rnd func(int) *rand.Rand, thorough bool) {
+func VerifC15Drive(t *testing.T, em VerifC15Emitter, be *VerifC15Backend, n int, rnd func(int) *rand.Rand) (wedged bool) {
 	failures := 0
 	for id := 0; id < c15Directed+n; id++ {
 		if em.Skip(id) {
@@ -708,8 +752,16 @@ func VerifC15Drive(t *testing.T, em VerifC15Emitter, be *VerifC15Backend, n int,
 			r.finish()
 		}
 		em.EndCase(r.parked > 0)
+		if r.fatal {
+			r.be.Reset()
+			t.Logf("locker wedged in case %d, stopping", id)
+			return true
+		}
 		if r.failed {
-			r.abort()
+			if r.abort() {
+				t.Logf("a Lock call of case %d cannot be ended, stopping", id)
+				return true
+			}
 			failures++
 			if failures >= 3 {
 				t.Logf("stopping after %d failing cases", failures)
@@ -717,6 +769,7 @@ func VerifC15Drive(t *testing.T, em VerifC15Emitter, be *VerifC15Backend, n int,
 			}
 		}
 	}
+	return false
 }
 
 // TestVerifC15Locker drives the bare locker.
@@ -749,5 +802,9 @@ func TestVerifC15Locker(t *testing.T) {
 		Cancellable: func(api int) bool { return true },
 		Reset:       func() { lr = newLocker() },
 	}
-	VerifC15Drive(t, em, be, verifN(300), verifCaseRand, thorough)
+	if VerifC15Drive(t, em, be, verifN(300), verifCaseRand) {
+		// goroutines are stuck inside the locker: the test binary cannot shut down cleanly
+		em.Close()
+		os.Exit(3)
+	}
 }
